@@ -30,7 +30,7 @@ AXES = [("fpr", "tpr"), ("fpr", "fnr"), ("tnr", "tpr"), ("tpr", "fpr"), ("fnr", 
 
 
 def n_cases(tier):
-    return 400 if tier == "quick" else 8000
+    return 4000 if tier == "quick" else 32000
 
 
 def gen_one(rng, i, tier):
@@ -39,6 +39,20 @@ def gen_one(rng, i, tier):
     pos, neg = pos[:25], neg[:25]
     if rng.random() < 0.5:
         pos, neg = gen.tiefree(rng, len(pos), len(neg), stream == "exact")
+    r_ = rng.random()
+    if r_ < 0.08:
+        # scores on a tiny scale (likelihoods ~1e-12): distinct values, far more than one ulp apart, yet closer than any
+        # fixed absolute epsilon (power-of-two factor: exact)
+        k_ = rng.choice([2.0 ** -40, 2.0 ** -50, 2.0 ** -33])
+        pos, neg = [x * k_ for x in pos], [x * k_ for x in neg]
+    elif r_ < 0.16:
+        # a narrow band: distinct scores 0.5 + k * 2**-36 (or 1000 + k * 2**-33), exactly representable
+        base_, step_ = rng.choice([(0.5, 2.0 ** -36), (1000.0, 2.0 ** -33), (-3.0, 2.0 ** -38)])
+        vals = rng.sample(range(0, 4000), len(pos) + len(neg))
+        if rng.random() < 0.5 and len(vals) > 2:
+            vals[1] = vals[0]  # one cross-class tie now and then
+        pos = [base_ + v * step_ for v in vals[:len(pos)]]
+        neg = [base_ + v * step_ for v in vals[len(pos):]]
     ep, en = gen.easy_counts(rng, stream, len(pos), len(neg))
     sc, ec = rng.choice(gen.CFGS)
     nall = len(neg) + en
